@@ -75,7 +75,7 @@ Record config := {
   tgt : option host                   (* ResponseFuture._host: execute(..., host=h); must be the `target` given to init *)
 }.
 
-Record attempt := { a_host : host; a_prep : bool; a_done : bool }.
+Record attempt := { a_host : host; a_prep : bool; a_done : bool; a_page : nat }.   (* a_page: the page fetch it belongs to *)
 
 Record state := {
   plan : list host;            (* not yet consumed part of the query plan *)
@@ -92,7 +92,8 @@ Record state := {
   spec_armed : bool;           (* a live timer for _on_speculative_execute exists *)
   spec_left : Z;               (* ConstantSpeculativeExecutionPlan.remaining *)
   conn_ks : option Z;          (* keyspace of the session's connections *)
-  paging : bool                (* _paging_state is set: the last ROWS answer said there are more pages *)
+  paging : bool;               (* _paging_state is set: the delivered page said there are more pages *)
+  page_no : nat                (* _page_no: which page fetch is current *)
 }.
 
 Inductive op :=
@@ -133,7 +134,7 @@ Fixpoint remove_nth {A} (n : nat) (l : list A) : list A :=
 Fixpoint mark_done (n : nat) (l : list attempt) : list attempt :=
   match l, n with
   | [], _ => []
-  | a :: l', O => {| a_host := a_host a; a_prep := a_prep a; a_done := true |} :: l'
+  | a :: l', O => {| a_host := a_host a; a_prep := a_prep a; a_done := true; a_page := a_page a |} :: l'
   | a :: l', S n' => a :: mark_done n' l'
   end.
 
@@ -142,20 +143,20 @@ Definition set_err (s : state) (h : host) (e : err) : state :=
   {| plan := plan s; consumed := consumed s; pools := pools s; msg_cl := msg_cl s; retries := retries s;
      nconsult := nconsult s; errors := upd (errors s) h e; queue := queue s; attempts := attempts s;
      fin_res := fin_res s; fin_exc := fin_exc s; spec_armed := spec_armed s; spec_left := spec_left s;
-     conn_ks := conn_ks s; paging := paging s |}.
+     conn_ks := conn_ks s; paging := paging s; page_no := page_no s |}.
 
 (* raw setters; the model uses fail_with / finish_with below (first outcome wins) *)
 Definition set_exc (s : state) (x : fexc) : state :=
   {| plan := plan s; consumed := consumed s; pools := pools s; msg_cl := msg_cl s; retries := retries s;
      nconsult := nconsult s; errors := errors s; queue := queue s; attempts := attempts s;
      fin_res := fin_res s; fin_exc := Some x; spec_armed := false; spec_left := spec_left s;
-     conn_ks := conn_ks s; paging := paging s |}.
+     conn_ks := conn_ks s; paging := paging s; page_no := page_no s |}.
 
 Definition set_res (s : state) (r : fres) : state :=
   {| plan := plan s; consumed := consumed s; pools := pools s; msg_cl := msg_cl s; retries := retries s;
      nconsult := nconsult s; errors := errors s; queue := queue s; attempts := attempts s;
      fin_res := Some r; fin_exc := fin_exc s; spec_armed := false; spec_left := spec_left s;
-     conn_ks := conn_ks s; paging := paging s |}.
+     conn_ks := conn_ks s; paging := paging s; page_no := page_no s |}.
 
 (* cluster.py (first-outcome-wins guard in _set_final_result/_set_final_exception): the timer is cancelled in any case, the
    outcome is stored only if none has been delivered yet *)
@@ -163,7 +164,7 @@ Definition cancel_timer (s : state) : state :=
   {| plan := plan s; consumed := consumed s; pools := pools s; msg_cl := msg_cl s; retries := retries s;
      nconsult := nconsult s; errors := errors s; queue := queue s; attempts := attempts s;
      fin_res := fin_res s; fin_exc := fin_exc s; spec_armed := false; spec_left := spec_left s;
-     conn_ks := conn_ks s; paging := paging s |}.
+     conn_ks := conn_ks s; paging := paging s; page_no := page_no s |}.
 
 Definition fail_with (s : state) (x : fexc) : state := if completed s then cancel_timer s else set_exc s x.
 Definition finish_with (s : state) (r : fres) : state := if completed s then cancel_timer s else set_res s r.
@@ -172,26 +173,30 @@ Definition push_task (s : state) (t : task) : state :=
   {| plan := plan s; consumed := consumed s; pools := pools s; msg_cl := msg_cl s; retries := retries s;
      nconsult := nconsult s; errors := errors s; queue := queue s ++ [t]; attempts := attempts s;
      fin_res := fin_res s; fin_exc := fin_exc s; spec_armed := spec_armed s; spec_left := spec_left s;
-     conn_ks := conn_ks s; paging := paging s |}.
+     conn_ks := conn_ks s; paging := paging s; page_no := page_no s |}.
 
 Definition add_attempt (s : state) (h : host) (prep : bool) : state :=
   {| plan := plan s; consumed := consumed s; pools := pools s; msg_cl := msg_cl s; retries := retries s;
      nconsult := nconsult s; errors := errors s; queue := queue s;
-     attempts := attempts s ++ [{| a_host := h; a_prep := prep; a_done := false |}];
+     attempts := attempts s ++ [{| a_host := h; a_prep := prep; a_done := false; a_page := page_no s |}];
      fin_res := fin_res s; fin_exc := fin_exc s; spec_armed := spec_armed s; spec_left := spec_left s;
-     conn_ks := conn_ks s; paging := paging s |}.
+     conn_ks := conn_ks s; paging := paging s; page_no := page_no s |}.
 
 Definition take_host (s : state) (h : host) (rest : list host) : state :=
   {| plan := rest; consumed := consumed s ++ [h]; pools := pools s; msg_cl := msg_cl s; retries := retries s;
      nconsult := nconsult s; errors := errors s; queue := queue s; attempts := attempts s;
      fin_res := fin_res s; fin_exc := fin_exc s; spec_armed := spec_armed s; spec_left := spec_left s;
-     conn_ks := conn_ks s; paging := paging s |}.
+     conn_ks := conn_ks s; paging := paging s; page_no := page_no s |}.
 
 Definition set_paging (s : state) (b : bool) : state :=
   {| plan := plan s; consumed := consumed s; pools := pools s; msg_cl := msg_cl s; retries := retries s;
      nconsult := nconsult s; errors := errors s; queue := queue s; attempts := attempts s;
      fin_res := fin_res s; fin_exc := fin_exc s; spec_armed := spec_armed s; spec_left := spec_left s;
-     conn_ks := conn_ks s; paging := b |}.
+     conn_ks := conn_ks s; paging := b; page_no := page_no s |}.
+
+(* ROWS: the page and its paging state are delivered together, and only if this answer is the first outcome of the page fetch *)
+Definition finish_rows (s : state) (more : bool) : state :=
+  if completed s then cancel_timer s else set_paging (set_res s FRows) more.
 
 Definition is_prepare (m : mkind) : bool := match m with MPrepare _ _ => true | _ => false end.
 
@@ -231,7 +236,7 @@ Definition bump_retry (s : state) (dcl : option Z) (t : task) : state :=
      retries := retries s + 1; nconsult := nconsult s; errors := errors s;
      queue := if keep then queue s else queue s ++ [t]; attempts := attempts s;
      fin_res := fin_res s; fin_exc := fin_exc s; spec_armed := spec_armed s; spec_left := spec_left s;
-     conn_ks := conn_ks s; paging := paging s |}.
+     conn_ks := conn_ks s; paging := paging s; page_no := page_no s |}.
 
 Definition handle_decision (s : state) (h : host) (k : ekind) (tag : Z) (d : decision) (dcl : option Z)
   : state * list event :=
@@ -250,7 +255,7 @@ Definition tick_consult (s : state) : state :=
   {| plan := plan s; consumed := consumed s; pools := pools s; msg_cl := msg_cl s; retries := retries s;
      nconsult := S (nconsult s); errors := errors s; queue := queue s; attempts := attempts s;
      fin_res := fin_res s; fin_exc := fin_exc s; spec_armed := spec_armed s; spec_left := spec_left s;
-     conn_ks := conn_ks s; paging := paging s |}.
+     conn_ks := conn_ks s; paging := paging s; page_no := page_no s |}.
 
 (* ---------------------------------------------------------------- _set_result (h = host of the attempt) *)
 Definition uses_ks (c : config) : bool := uses_keyspace_flag (pv c).
@@ -279,8 +284,8 @@ Definition unprepared (c : config) (s : state) (h : host) (id tag : Z) : state *
 
 Definition set_result (c : config) (s : state) (h : host) (r : resp) : state * list event :=
   match r with
-  | RRows => (finish_with (set_paging s false) FRows, [])          (* self._paging_state = response.paging_state, then the result *)
-  | RRowsMore => (finish_with (set_paging s true) FRows, [])
+  | RRows => (finish_rows s false, [])
+  | RRowsMore => (finish_rows s true, [])
   | RVoid => (finish_with s FNone, [])
   | RPrepared _ => (finish_with s FMsg, [])
   | RRetryable k tag =>
@@ -336,20 +341,20 @@ Definition set_queue (s : state) (q : list task) : state :=
   {| plan := plan s; consumed := consumed s; pools := pools s; msg_cl := msg_cl s; retries := retries s;
      nconsult := nconsult s; errors := errors s; queue := q; attempts := attempts s;
      fin_res := fin_res s; fin_exc := fin_exc s; spec_armed := spec_armed s; spec_left := spec_left s;
-     conn_ks := conn_ks s; paging := paging s |}.
+     conn_ks := conn_ks s; paging := paging s; page_no := page_no s |}.
 
 Definition set_attempts (s : state) (a : list attempt) : state :=
   {| plan := plan s; consumed := consumed s; pools := pools s; msg_cl := msg_cl s; retries := retries s;
      nconsult := nconsult s; errors := errors s; queue := queue s; attempts := a;
      fin_res := fin_res s; fin_exc := fin_exc s; spec_armed := spec_armed s; spec_left := spec_left s;
-     conn_ks := conn_ks s; paging := paging s |}.
+     conn_ks := conn_ks s; paging := paging s; page_no := page_no s |}.
 
 (* ---------------------------------------------------------------- speculative timer *)
 Definition set_spec (s : state) (armed : bool) (left : Z) : state :=
   {| plan := plan s; consumed := consumed s; pools := pools s; msg_cl := msg_cl s; retries := retries s;
      nconsult := nconsult s; errors := errors s; queue := queue s; attempts := attempts s;
      fin_res := fin_res s; fin_exc := fin_exc s; spec_armed := armed; spec_left := left;
-     conn_ks := conn_ks s; paging := paging s |}.
+     conn_ks := conn_ks s; paging := paging s; page_no := page_no s |}.
 
 (* _start_timer with timeout=None: arm a speculative timer iff the plan still yields a delay *)
 Definition start_timer (s : state) : state :=
@@ -369,7 +374,7 @@ Definition set_env (s : state) (p : list (host * pstate)) (k : option Z) : state
   {| plan := plan s; consumed := consumed s; pools := p; msg_cl := msg_cl s; retries := retries s;
      nconsult := nconsult s; errors := errors s; queue := queue s; attempts := attempts s;
      fin_res := fin_res s; fin_exc := fin_exc s; spec_armed := spec_armed s; spec_left := spec_left s;
-     conn_ks := k; paging := paging s |}.
+     conn_ks := k; paging := paging s; page_no := page_no s |}.
 
 Definition make_plan (lb_plan : list host) (target : option host) : list host :=
   match target with Some h => [h] | None => lb_plan end.
@@ -387,7 +392,7 @@ Definition page_start (c : config) (s : state) (p : list host) : state :=
   {| plan := make_plan p (tgt c); consumed := consumed s; pools := pools s; msg_cl := msg_cl s; retries := retries s;
      nconsult := nconsult s; errors := errors s; queue := queue s; attempts := attempts s;
      fin_res := None; fin_exc := None; spec_armed := false; spec_left := spec_left s;
-     conn_ks := conn_ks s; paging := paging s |}.
+     conn_ks := conn_ks s; paging := paging s; page_no := S (page_no s) |}.
 
 (* ---------------------------------------------------------------- one step *)
 Definition step (c : config) (s : state) (o : op) : state * list event :=
@@ -400,7 +405,8 @@ Definition step (c : config) (s : state) (o : op) : state * list event :=
           if a_done a then (s, [])
           else let s0 := set_attempts s (mark_done i (attempts s)) in
                if a_prep a then (push_task s0 (TAfterPrepare (a_host a) r), [])
-               else set_result c s0 (a_host a) r
+               else if Nat.eqb (a_page a) (page_no s) then set_result c s0 (a_host a) r
+               else (s0, [])        (* _set_result_of_page: the answer of an execution of an earlier page fetch is dropped *)
       end
   | Run k =>
       match nth_error (queue s) k with
@@ -439,7 +445,7 @@ Definition init (lb_plan : list host) (target : option host) (pl : list (host * 
   {| plan := make_plan lb_plan target; consumed := []; pools := pl; msg_cl := cl; retries := 0; nconsult := 0%nat;
      errors := []; queue := []; attempts := []; fin_res := None; fin_exc := None;
      spec_armed := false; spec_left := spec_gate idempotent has_policy max_attempts; conn_ks := ks;
-     paging := false |}.
+     paging := false; page_no := 0%nat |}.
 
 (* ---------------------------------------------------------------- observation encoding (correspondence only) *)
 Definition enc_opt (o : option Z) : list Z := match o with None => [0] | Some z => [1; z] end.
